@@ -147,7 +147,7 @@ func main() {
 	}
 	r := core.NewReport(*prop)
 	r.ReplayDir = filepath.Join(*verif, "replays")
-	r.Explanation = pack.Expl
+	r.Explanation = pack.Expl + rules.CommonExpl(*prop)
 	r.RuleText = pack.Rule
 	r.Assumptions = append(r.Assumptions, pack.Assumptions...)
 	r.Notes = append(r.Notes, normNotes...)
